@@ -22,6 +22,10 @@ type routeState struct {
 	sym  map[uint32]string
 	keys map[string]refdemon.Keys
 	req  uint32
+
+	first  string    // the hop that talks to the listener
+	expect []expTask // wrapped tasks queued on the first hop and not yet collected, in order
+	index  map[string]int
 }
 
 func classID(cls string, rng *rand.Rand, used map[uint32]bool) uint32 {
@@ -58,6 +62,9 @@ func (s *routeState) symOfID(id uint32) string {
 }
 
 func (s *routeState) issue(target string, req uint32, d, j int) (string, bool) {
+	if target != s.first {
+		s.expect = append(s.expect, expTask{target, req, d, j})
+	}
 	ag := s.w.Agent(s.ids[target])
 	if ag == nil {
 		panic("harness-error: no session for " + target)
@@ -70,42 +77,49 @@ func (s *routeState) issue(target string, req uint32, d, j int) (string, bool) {
 	return guarded(func() { s.w.TS.DispatchEvent(pk) }, 8*time.Second)
 }
 
-// unwrap follows the layers of a pivot task as the Demons would.
-func (s *routeState) unwrap(me string, t refdemon.Task, wantReq uint32, d, j int) (path []string, at string, ok bool) {
+// unwrap follows the layers of a pivot task as the Demons would and returns the hop symbols
+// visited, where the final (non-pivot) task was found and what it decoded to.
+func (s *routeState) unwrap(me string, t refdemon.Task) (path []string, at string, req uint32, d, j int, ok bool) {
 	path = []string{}
 	cur := me
 	for depth := 0; depth < 10; depth++ {
 		if t.Cmd != refdemon.CmdPivot {
-			at = cur
-			ok = t.Cmd == refdemon.CmdSleep && t.Req == wantReq && len(t.Body) == 8 &&
-				binary.LittleEndian.Uint32(t.Body) == uint32(d) && binary.LittleEndian.Uint32(t.Body[4:]) == uint32(j)
-			return
+			if t.Cmd != refdemon.CmdSleep || len(t.Body) != 8 {
+				return path, cur, t.Req, 0, 0, false
+			}
+			return path, cur, t.Req, int(binary.LittleEndian.Uint32(t.Body)), int(binary.LittleEndian.Uint32(t.Body[4:])), true
 		}
 		rd := &refdemon.Rd{B: t.Body}
 		sub := rd.I32()
 		child := rd.I32()
 		frame := rd.Bytes()
 		if rd.Err != nil || len(rd.B) != 0 || sub != refdemon.PivotSmbCommand {
-			return path, "?malformed-pivot-task", false
+			return path, "?malformed-pivot-task", 0, 0, 0, false
 		}
 		fid, pkg, err := refdemon.PipeFrame(frame)
 		if err != nil || fid != child {
-			return path, "?pipe-frame", false
+			return path, "?pipe-frame", 0, 0, 0, false
 		}
 		next := s.symOfID(child)
 		path = append(path, next)
 		k, known := s.keys[next]
 		if !known {
-			return path, next, false
+			return path, next, 0, 0, 0, false
 		}
 		ts, err := refdemon.ParseTasks(pkg, k)
 		if err != nil || len(ts) != 1 {
-			return path, "?inner-package", false
+			return path, "?inner-package", 0, 0, 0, false
 		}
 		t = ts[0]
 		cur = next
 	}
-	return path, "?too-deep", false
+	return path, "?too-deep", 0, 0, 0, false
+}
+
+type expTask struct {
+	target string
+	req    uint32
+	d, j   int
 }
 
 func RunRoute(behs [][]Step, tr *Trace, env Env, sum *Summary) {
@@ -162,18 +176,34 @@ func RunRoute(behs [][]Step, tr *Trace, env Env, sum *Summary) {
 			}
 			connect(sibParent, "sib")
 			target := chain[len(chain)-1]
+			s.first = chain[0]
+			s.index = map[string]int{}
+			for i, h := range chain {
+				s.index[h] = i
+			}
 			for si, st := range beh[1:] {
 				op, owner := st.Str("op"), st.Str("owner")
 				sum.Counters["op."+op]++
 				res := map[string]any{"delivered": false, "path": []string{}, "at": "", "ok": false}
 				s.req++
 				req := s.req
+				_ = req
 				switch op {
 				case "Down":
-					d, j := 30+rng.Intn(1000), rng.Intn(90)
+					// two tasks for the target before the first hop checks in: every wrapped task queued so far
+					// (also those left over from earlier steps) must come out, in order, each intact
 					sibBefore := fmt.Sprintf("%v", w.Snapshot().Queues[fmt.Sprintf("%08x", s.ids["sib"])])
-					if p, to := s.issue(target, req, d, j); p != "" || to {
-						fail(si, map[bool]string{true: "hang", false: "panic"}[to], "Issue", firstLines(p, 14))
+					failed := false
+					for n := 0; n < 2 && !failed; n++ {
+						if n == 1 {
+							s.req++
+						}
+						if p, to := s.issue(target, s.req, 30+rng.Intn(1000), rng.Intn(90)); p != "" || to {
+							fail(si, map[bool]string{true: "hang", false: "panic"}[to], "Issue", firstLines(p, 14))
+							failed = true
+						}
+					}
+					if failed {
 						break
 					}
 					rr := w.Request(refdemon.CheckIn(s.ids[chain[0]], s.keys[chain[0]]))
@@ -186,17 +216,35 @@ func RunRoute(behs [][]Step, tr *Trace, env Env, sum *Summary) {
 						res["at"] = "?undecodable"
 						break
 					}
-					// earlier steps may have left other wrapped tasks in the queue: the one we issued is the last
-					for ti := len(tasks) - 1; ti >= 0; ti-- {
-						t := tasks[ti]
-						if t.Cmd == refdemon.CmdPivot {
-							res["delivered"] = true
-							path, at, ok := s.unwrap(chain[0], t, req, d, j)
-							sibAfter := fmt.Sprintf("%v", w.Snapshot().Queues[fmt.Sprintf("%08x", s.ids["sib"])])
-							res["path"], res["at"], res["ok"] = path, at, ok && sibBefore == sibAfter
+					want := s.expect
+					s.expect = nil
+					got := 0
+					allOK := true
+					for _, t := range tasks {
+						if t.Cmd != refdemon.CmdPivot {
+							continue
+						}
+						res["delivered"] = true
+						path, at, rq, d, j, ok := s.unwrap(chain[0], t)
+						res["path"], res["at"] = path, at
+						if got >= len(want) {
+							allOK = false
 							break
 						}
+						e := want[got]
+						got++
+						wantPath := chain[1 : s.index[e.target]+1]
+						if !ok || at != e.target || rq != e.req || d != e.d || j != e.j || fmt.Sprint(path) != fmt.Sprint(wantPath) {
+							allOK = false
+							sum.Counters["down-mismatch"]++
+						}
 					}
+					if got != len(want) {
+						allOK = false
+					}
+					sibAfter := fmt.Sprintf("%v", w.Snapshot().Queues[fmt.Sprintf("%08x", s.ids["sib"])])
+					res["ok"] = allOK && sibBefore == sibAfter
+					sum.Counters["wrapped-tasks-checked"] += got
 				case "Up":
 					val := 2000 + rng.Intn(100000)
 					if owner != "nobody" {
